@@ -42,6 +42,22 @@ Definition c_eval (e : cexpr) (en : env) : option Z :=
 
 Definition no_fsemN (f : fnid) (vs : list Z) : option (list Z) := None.
 
+(** [_positional_fn(e1, a1) == _positional_fn(e2, a2)] for this instance: the same body, applied to
+    the same POSITIONS (a repeated parameter stands for its first position), same arity.  On the
+    function library of the harness this coincides with SymPy's structural comparison (different
+    bodies / different repetition patterns give different polynomials). *)
+Fixpoint first_index (x : name) (ps : list name) : nat :=
+  match ps with
+  | [] => 0
+  | p :: r => if N.eqb x p then 0 else S (first_index x r)
+  end.
+Definition positions (d : cexpr * list name) : list nat :=
+  map (fun x => first_index x (snd d)) (snd (fst d)).
+Definition c_same_fn (q p : cexpr * list name) : bool :=
+  N.eqb (fst (fst q)) (fst (fst p))
+  && Nat.eqb (length (snd q)) (length (snd p))
+  && list_eqb Nat.eqb (positions q) (positions p).
+
 (** ---- comparison helpers --------------------------------------------------------------- *)
 
 Definition list_eqb2 {A B} (eqb : A -> B -> bool) : list A -> list B -> bool :=
@@ -124,7 +140,7 @@ Definition state_ok (fs : fnid -> list Z -> option Z) (m : model) (ch : cache) (
 
 Definition c11_case_ok (c : c11_case) : bool :=
   let '(t, m, o) := c in
-  match generate cexpr nstr (c_fname t) (c_translate t) gen_mxlgen_facts m with
+  match generate cexpr nstr (c_fname t) (c_translate t) c_same_fn gen_mxlgen_facts m with
   | None => N.eqb (o_tag o) 1
   | Some code =>
     shape_ok code o &&
